@@ -106,8 +106,11 @@ PoissonDistribution<RealType>::operator()(Generator& rng) -> result_type
         } while (p > 1);
         return static_cast<result_type>(k - 1);
     }
-    // Use Gaussian approximation rounded to nearest integer
-    return result_type(sample_normal_(rng) + real_type(0.5));
+    // Use Gaussian approximation rounded to nearest integer: the tail of the
+    // normal distribution below zero maps to zero counts (converting a
+    // negative value to the unsigned result type would wrap around)
+    real_type const rounded = sample_normal_(rng) + real_type(0.5);
+    return rounded > 0 ? result_type(rounded) : result_type(0);
 }
 //---------------------------------------------------------------------------//
 }  // namespace celeritas
